@@ -40,6 +40,9 @@ RULE = (
 )
 ASSUMPTIONS = [
     "maps are finite float32 tensors with |v| <= 8; NaN/inf maps are outside 'all float maps'",
+    "non-zero map values have magnitude >= 1e-30 (the generator flushes smaller ones to 0): float32 "
+    "denormals underflow inside the bilinear crop (0.25 * 1.4e-45 -> 0) and a denormal-valued peak would "
+    "get an all-zero patch - an arithmetic artefact far outside any confidence-map value range",
     "thresholds are float32-exact numbers (torch compares the float32 map with the scalar in float32; a "
     "double threshold such as 0.2 would make 'below' differ between real and float32 arithmetic for the "
     "single value float32(0.2) - a representation artefact)",
@@ -498,7 +501,7 @@ def parts(tier):
             strategy=strategy_maps,
             budget={"quick": 1200, "thorough": 30000},
             shards={"quick": 1, "thorough": 16},
-            min_nontrivial={"quick": 100, "thorough": 2500},
+            min_nontrivial={"quick": 260, "thorough": 6000},
         ),
         Part(
             name="bumps",
@@ -506,7 +509,7 @@ def parts(tier):
             strategy=strategy_bumps,
             budget={"quick": 500, "thorough": 10000},
             shards={"quick": 1, "thorough": 16},
-            min_nontrivial={"quick": 50, "thorough": 1000},
+            min_nontrivial={"quick": 95, "thorough": 1800},
         ),
     ]
 
